@@ -16,12 +16,15 @@
        alone with the field (isolation of critical sections);
      - the services' own mutexes are acquired in a consistent order, so their threads never all wait
        for each other (deadlock freedom among a service's mutexes).
-   What is NOT proved: atomicity of whole operations (an operation that releases and re-takes a lock
-   is several sections; "results are those of some sequential order" is proved per critical section,
-   not per operation); and the skeleton abstracts from values, from aliasing beyond one local
+     - for the account managers' refresh / lookup pair, with its data: every lookup answer is the
+       sequential lookup on the store of one refresh (section 5; hand-written model).
+   What is NOT proved: atomicity of whole operations in general (an operation that releases and
+   re-takes a lock is several sections; "results are those of some sequential order" is proved per
+   critical section, and per operation only for the account lookup); the skeleton abstracts from values, from aliasing beyond one local
    variable, from other structs and from the Go memory model (mutual exclusion is taken as
    sufficient for visibility); the translator is trusted (see DESIGN.md, C17, and notes/C17.md). *)
 From Verif Require Import Lib.Base Lib.Lockset Lib.LocksetX Proofs.Lockset Proofs.LocksetX Proofs.C17 Gen.C17_Extracted.
+From Verif Require Import Model.C17_Snapshot Proofs.C17_Snapshot.
 From Coq Require Import String.
 
 (* ------------------------------------------------------------------------------------------------
@@ -156,6 +159,40 @@ Proof. exact (tree_deadlock_free_lemma C17_tree_analysis_ok C17_tree_lock_order_
 Print Assumptions C17_tree_deadlock_free_partial.
 
 (* ------------------------------------------------------------------------------------------------
+   5. Whole operations, where the skeleton stops: the account managers' refresh / lookup pair with its
+   data (Model/C17_Snapshot.v; one event = one critical section of `mutex`).  With the lookup taking
+   the public keys and the accounts in ONE section (the code as it is now, wallet and dirk), in every
+   schedule of any number of refreshes and lookups of any number of threads every answer IS the
+   sequential lookup on the store installed by one refresh of the schedule (or the initial one) —
+   "results are those of some sequential order" for this pair — and hence names no validator
+   without its account. *)
+Theorem C17_snapshot_lookup_sequential :
+  forall (listing0 : list (key * account)) (sch : list event),
+    forallb one_section sch = true ->
+    forall t r, In (t, r) (c_out (run sch (init listing0))) ->
+      exists s, In s (install listing0 :: stores_of sch) /\ r = lookup_at s.
+Proof. exact snapshot_sequential_lemma. Qed.
+Print Assumptions C17_snapshot_lookup_sequential.
+
+Theorem C17_snapshot_lookup_whole :
+  forall (listing0 : list (key * account)) (sch : list event),
+    forallb one_section sch = true ->
+    forall t r, In (t, r) (c_out (run sch (init listing0))) -> whole r = true.
+Proof. exact snapshot_whole_lemma. Qed.
+Print Assumptions C17_snapshot_lookup_whole.
+
+(* The two-section shape (dirk before fix 1b8284f: public keys under one read lock, accounts under a
+   second one) does not have the property: keys read, an account removed by a refresh, accounts read —
+   the answer names validator 2 without an account and is the lookup of NO store of the schedule.
+   (On the implementation: nil account, `account.Name()` panics; scenario dirk-churn, corpus/C17.) *)
+Theorem C17_two_section_lookup_refuted :
+  exists (listing0 : list (key * account)) (sch : list event) (t : nat) (r : result),
+    In (t, r) (c_out (run sch (init listing0))) /\ whole r = false /\
+    forall s, In s (install listing0 :: stores_of sch) -> r <> lookup_at s.
+Proof. exists torn_listing0, torn_schedule, 0%nat, torn_answer. exact two_section_refuted_lemma. Qed.
+Print Assumptions C17_two_section_lookup_refuted.
+
+(* ------------------------------------------------------------------------------------------------
    Non-vacuity.  The analysis rejects an unguarded write/read pair, a leaked lock and a nested read
    lock, and accepts the guarded version (so acceptance is not trivial). *)
 Example C17_rejects_unguarded :
@@ -200,6 +237,12 @@ Proof. vm_compute. reflexivity. Qed.
 (* the discipline rejects a field written under two different mutexes *)
 Example C17_discipline_rejects_two_guards :
   discipline_ok (fun _ => false) (fun _ => false) (graph_accesses two_guards [0%nat; 3%nat]) = false.
+Proof. vm_compute. reflexivity. Qed.
+
+(* the snapshot theorems speak about schedules that do answer: a refresh between two lookups *)
+Example C17_snapshot_example :
+  c_out (run [ESnap 0; ERefresh [(1, 10)]; ESnap 1] (init [(1, 10); (2, 20)])) =
+    [(1%nat, [(1, Some 10)]); (0%nat, [(1, Some 10); (2, Some 20)])].
 Proof. vm_compute. reflexivity. Qed.
 
 (* the lock order rejects AB/BA although the lockset analysis accepts it, and that graph does
